@@ -322,10 +322,50 @@ func ruleExactShortcuts(w *World, r *RuleResult) {
 		}, nil)
 		return ok
 	}
+	// the guard of each shortcut, by shape: kind "zero" = the operand is zero (IsZero(p) or Sign(p) == 0 on an
+	// operand parameter p of the function holding the store), kind "one" = p.Cmp(decimalOne) == 0
+	operandParam := func(g *ssa.Function, v ssa.Value) bool {
+		pr, ok := basePtr(v).(*ssa.Parameter)
+		if !ok || !isDecimalPtr(pr.Type()) {
+			return false
+		}
+		return pr != g.Params[destArgIndex(w, g)]
+	}
+	guardOK := func(g *ssa.Function, b *ssa.BasicBlock, kind string) bool {
+		for _, gd := range guardsAt(b) {
+			switch c := gd.Cond.(type) {
+			case *ssa.Call:
+				if kind == "zero" && gd.Val && w.calleeName(c) == "(*Decimal).IsZero" && operandParam(g, c.Common().Args[0]) {
+					return true
+				}
+			case *ssa.BinOp:
+				call, isC := c.X.(*ssa.Call)
+				k, isK := c.Y.(*ssa.Const)
+				if !isC || !isK || ci(k) != 0 || !((c.Op == token.EQL && gd.Val) || (c.Op == token.NEQ && !gd.Val)) {
+					continue
+				}
+				switch w.calleeName(call) {
+				case "(*Decimal).Sign":
+					if kind == "zero" && operandParam(g, call.Common().Args[0]) {
+						return true
+					}
+				case "(*Decimal).Cmp":
+					if kind == "one" && operandParam(g, call.Common().Args[0]) {
+						for _, l := range w.newProv(g, nil).roots(call.Common().Args[1]) {
+							if l.Root.Kind == RGlobalObj && l.Root.Name == "decimalOne" {
+								return true
+							}
+						}
+					}
+				}
+			}
+		}
+		return false
+	}
 	for _, s := range []sc{
-		{"(*Context).Exp", "IsZero(x)=T", "decimalOne"},
-		{"(*Context).logSpecials", "(*Decimal).Cmp(x, decimalOne)", "decimalZero"},
-		{"(*Context).Pow", "(*Decimal).Sign(y)", "decimalOne"},
+		{"(*Context).Exp", "zero", "decimalOne"},
+		{"(*Context).logSpecials", "one", "decimalZero"},
+		{"(*Context).Pow", "zero", "decimalOne"},
 	} {
 		f := w.fn(s.fn)
 		if f == nil {
@@ -334,16 +374,12 @@ func ruleExactShortcuts(w *World, r *RuleResult) {
 		}
 		key := s.fn + " | exact shortcut to " + s.global
 		ok := false
-		for _, c := range w.sharedSetSites(f, s.global) {
-			facts := w.guardFacts(f, c.Block())
-			hit := false
-			for k := range facts {
-				if strings.Contains(k, s.guard) && (strings.HasSuffix(k, "=T") && (strings.Contains(k, "== 0") || strings.HasPrefix(k, "IsZero"))) {
-					hit = true
+		// the shortcut may sit in a helper the operation was split into
+		for _, g := range w.closureFuncs(f) {
+			for _, c := range w.sharedSetSites(g, s.global) {
+				if guardOK(g, c.Block(), s.guard) && zeroRet(g, c) {
+					ok = true
 				}
-			}
-			if hit && zeroRet(f, c) {
-				ok = true
 			}
 		}
 		if ok {
@@ -358,7 +394,16 @@ func ruleExactShortcuts(w *World, r *RuleResult) {
 		ok := false
 		for _, c := range w.callsTo(f, "(*Context).round") {
 			for _, g := range guardsAt(c.Block()) {
-				if g.Val && strings.Contains(w.exprOf(f, g.Cond).String(), "(*Decimal).IsZero(&frac") {
+				isFracZero := false
+				if gc, isCall := g.Cond.(*ssa.Call); isCall && w.calleeName(gc) == "(*Decimal).IsZero" {
+					// the fractional part: the third argument of a Modf call
+					for _, m := range w.callsTo(f, "(*Decimal).Modf") {
+						if len(m.Common().Args) == 3 && basePtr(m.Common().Args[2]) == basePtr(gc.Common().Args[0]) {
+							isFracZero = true
+						}
+					}
+				}
+				if g.Val && isFracZero {
 					// on this edge no ErrDecimal Ln/Exp call is reachable before the return
 					rt, _ := mustPassFrom(c, func(in ssa.Instruction) bool { _, isRet := in.(*ssa.Return); return isRet }, nil)
 					lnAfter := false
